@@ -84,6 +84,16 @@ func alphabet() []hmsg {
 		t, _ := c.Target()
 		t.Struct.SetUint16(4, 2)
 	}))
+	add(call("Call(q9,target kind 2,cap in params)", 9, imp0, 64, []rpcsim.CapD{{Kind: 's', ID: 6}}, func(c rpccp.Call) {
+		t, _ := c.Target()
+		t.Struct.SetUint16(4, 2)
+	}))
+	add(call("Call(q9,transform op kind 5,cap in params)", 9, rpcsim.Target{Promised: true, ID: 0, Path: []uint16{0}}, 64, []rpcsim.CapD{{Kind: 's', ID: 6}}, func(c rpccp.Call) {
+		t, _ := c.Target()
+		pa, _ := t.PromisedAnswer()
+		ops, _ := pa.Transform()
+		ops.At(0).Struct.SetUint16(0, 5)
+	}))
 	add(call("Call(q9,sendResultsTo yourself)", 9, imp0, 64, nil, func(c rpccp.Call) { c.SendResultsTo().SetYourself() }))
 	add(call("Call(q9,sendResultsTo yourself,cap in params)", 9, imp0, 64, []rpcsim.CapD{{Kind: 's', ID: 4}}, func(c rpccp.Call) { c.SendResultsTo().SetYourself() }))
 	add(call("Call(q9,transform op kind 5)", 9, rpcsim.Target{Promised: true, ID: 0, Path: []uint16{0}}, 64, nil, func(c rpccp.Call) {
@@ -613,11 +623,13 @@ func main() {
 					family("len1,dev2", scenarios(1, []int{0, 1, 2}, true, false), vsched.Config{MaxPreempt: 2, MaxFree: 2, MaxTotal: 2, MaxSteps: 20000, MaxExecs: 150000}),
 					family("len2,dev1", scenarios(2, []int{1, 2}, false, false), vsched.Config{MaxPreempt: 1, MaxFree: 1, MaxTotal: 1, MaxSteps: 20000}),
 					family("corrupt,pb0", scenarios(0, nil, false, true), vsched.Config{MaxPreempt: 0, MaxFree: 1, MaxSteps: 20000}),
+					retFailFamily("release-races-return,dev2", vsched.Config{MaxPreempt: 2, MaxFree: 2, MaxTotal: 2, MaxSteps: 20000}),
 				}
 			}
 			return []vlib.Family{
 				family("len1,pb1", scenarios(1, []int{0, 1, 2}, true, false), vsched.Config{MaxPreempt: 1, MaxFree: 1, MaxSteps: 20000}),
 				family("len2,pb0", scenarios(2, []int{1}, false, false), vsched.Config{MaxPreempt: 0, MaxFree: 1, MaxSteps: 20000}),
+				retFailFamily("release-races-return,dev1", vsched.Config{MaxPreempt: 1, MaxFree: 1, MaxTotal: 1, MaxSteps: 20000}),
 			}
 		},
 	})
